@@ -29,8 +29,8 @@ type Outcome struct {
 	Decisions  int               `json:"decisions,omitempty"`
 	Nontrivial bool              `json:"nontrivial"`
 	ScenHash   string            `json:"scen_hash"`
-	Skipped    string            `json:"skipped,omitempty"` // generator produced something unusable (counted, not a verdict)
-	Tapes      [][]int           `json:"tapes,omitempty"` // decisions of every scheduler of the run, in creation order
+	Skipped    string            `json:"skipped,omitempty"`       // generator produced something unusable (counted, not a verdict)
+	Tapes      [][]int           `json:"tapes,omitempty"`         // decisions of every scheduler of the run, in creation order
 	Harness    string            `json:"harness_error,omitempty"` // infrastructure problem -> exit 2
 	Scenario   json.RawMessage   `json:"scenario,omitempty"`
 	Info       map[string]string `json:"info,omitempty"`
